@@ -148,6 +148,67 @@ def to_impl(s):
     return GeoPolygon([c(p) for p in s.raw], holes=holes, dt=dt)
 
 
+def to_impl_live(s, salt):
+    """`to_impl(s)` built the way a caller with long-lived containers builds it, plus a `disturb()` that afterwards edits
+    what the *caller* still owns or was handed back — the holes list passed to the constructor, the holes list of a
+    converted / copied shape, another shape built from the re-used list.  The library copies that list at construction
+    (`list(holes or [])`), so no answer about the shape may change (seeded change C01-p1 kept the caller's list).  The
+    outline list is not disturbed: the constructor documents no copy of it and keeps the caller's list when it is
+    already closed and counter-clockwise.  The edit is picked from `salt`, so a replayed line repeats it."""
+    import zlib
+    from geostructures import Coordinate, GeoBox, GeoPolygon
+    obj = to_impl(s)
+    if s.kind not in ('poly', 'box'):
+        return obj, (lambda: 'nothing')
+
+    def c(p):
+        return Coordinate(float(p[0]), float(p[1]))
+    dt = mk_dt(s.dt)
+    hole_dt = (EPOCH + timedelta(days=11111)) if dt is not None else None
+    mine = [GeoPolygon([c(p) for p in h], dt=hole_dt) for h in s.rawholes]     # the caller's own list, passed as it is
+    if s.kind == 'box':
+        obj = GeoBox(c(s.nw), c(s.se), holes=mine, dt=dt)
+    else:
+        obj = GeoPolygon([c(p) for p in s.raw], holes=mine, dt=dt)
+    xs = [float(p[0]) for p in s.shell]
+    ys = [float(p[1]) for p in s.shell]
+    w, h = (max(xs) - min(xs)) or 1.0, (max(ys) - min(ys)) or 1.0
+    # a hole swallowing the whole shape: if it ever becomes one of the shape's holes, every answer flips
+    big = GeoPolygon([Coordinate(min(xs) - w, min(ys) - h), Coordinate(max(xs) + w, min(ys) - h),
+                      Coordinate(max(xs) + w, max(ys) + h), Coordinate(min(xs) - w, max(ys) + h)])
+    pick = zlib.crc32(salt.encode()) % 6
+
+    def disturb():
+        if pick == 0:
+            mine.clear()
+            return 'caller cleared its holes list'
+        if pick == 1:
+            mine.append(big)
+            return 'caller appended to its holes list'
+        if pick == 2:
+            if mine:
+                mine.pop()
+            mine.insert(0, big)
+            GeoPolygon([c(p) for p in s.shell], holes=mine)
+            return 'caller re-used its holes list for another polygon'
+        if pick == 3:
+            other = obj.to_polygon()
+            if other is not obj:
+                other.holes.append(big)
+                return 'caller appended to the holes of to_polygon()'
+            return 'nothing'
+        if pick == 4:
+            other = obj.copy()
+            other.holes.append(big)
+            return 'caller edited the holes of copy()'
+        other = obj.set_dt(EPOCH, inplace=False) if hasattr(obj, 'set_dt') else obj.copy()
+        if other is not obj:
+            other.holes.clear()
+            other.holes.append(big)
+        return 'caller edited the holes of set_dt(inplace=False)'
+    return obj, disturb
+
+
 def show_pts(coords):
     return ' '.join(f'{rat(c.longitude)},{rat(c.latitude)}' for c in coords)
 
